@@ -41,7 +41,7 @@ let r_res = function
   | RDowns l -> "downs[" ^ String.concat ";" (List.map r_down l) ^ "]"
 
 let dev_of s = match String.split_on_char ',' s with
-  | [e; a; k1; k2; k3; ap; st; fu; fd; rl; kw; tag] ->
+  | e :: a :: k1 :: k2 :: k3 :: ap :: st :: fu :: fd :: rl :: kw :: tag :: _history ->
     { rd_eui = eui_of e; rd_addr = n_of_hex a; rd_appkey = bytes_of_hex k1; rd_appskey = bytes_of_hex k2; rd_nwkskey = bytes_of_hex k3;
       rd_app = eui_of ap; rd_state = n_of st; rd_fup = n_of fu; rd_fdn = n_of fd; rd_relaxed = b_of rl; rd_kw = b_of kw; rd_tag = txt_of tag }
   | _ -> failwith ("dev: " ^ s)
